@@ -305,7 +305,11 @@ def _comprehension_facts(fn: ast.FunctionDef) -> Dict[str, object]:
         if isinstance(n, ast.For) and "yield_active_cells" in norm(n.iter):
             facts["active_from"] = norm(n.target)
         if isinstance(n, ast.comprehension):
-            facts["domains"].append((norm(n.target), norm(n.iter), [norm(i) for i in n.ifs]))
+            it = n.iter
+            # order-only wrappers do not change the domain
+            while isinstance(it, ast.Call) and isinstance(it.func, ast.Name) and it.func.id in ("sorted", "list", "tuple", "reversed") and it.args:
+                it = it.args[0]
+            facts["domains"].append((norm(n.target), norm(it), [norm(i) for i in n.ifs]))
         if isinstance(n, ast.Call) and norm(n.func).endswith("yield_surplus"):
             facts["surplus"] = True
     return facts
